@@ -13,11 +13,18 @@ def SliceOk (size : Int) : Res → Prop
 
 set_option maxHeartbeats 1000000 in
 theorem range_result_len_str (lim : Limits) (r1 r2 : Bool) (size n1 n2 : Int) (out : Out) (hk : SizeOk .str size)
-    (h : opRange lim .str r1 r2 size n1 n2 = .ok out) :
+    (hn1 : InI64 n1) (hn2 : InI64 n2) (h : opRange lim .str r1 r2 size n1 n2 = .ok out) :
     SliceOk size out.res ∧ ∀ a ∈ out.acc, a.inBounds .str size 0 := by
   obtain ⟨h0, hk⟩ := hk
   simp only at hk
   unfold opRange at h
+  dsimp only at h
+  -- the bounds hold for EVERY int64 value of the "counted from the end" subtractions (regenerated `rev_*`)
+  have htR : InI64 (rev_range_str_to size n2) := by unfold rev_range_str_to; exact rangeFromEnd_inI64 _ _
+  generalize rev_range_str_to size n2 = tR at h htR
+  have hfR : InI64 (rev_range_str_from size n1) := by unfold rev_range_str_from; exact rangeFromEnd_inI64 _ _
+  generalize rev_range_str_from size n1 = fR at h hfR
+  unfold InI64 at *
   simp only [guard_range_str_to_neg, guard_range_str_from_neg, guard_range_str_from_clamp, guard_range_str_empty,
     guard_range_str_tail, inS64, trunc64] at h
   cases r1 <;> cases r2 <;> simp only [Bool.false_eq_true, ↓reduceIte, Bool.not_true, Bool.not_false, Bool.true_and, Bool.false_and] at h <;>
@@ -32,11 +39,17 @@ theorem range_result_len_str (lim : Limits) (r1 r2 : Bool) (size n1 n2 : Int) (o
 
 set_option maxHeartbeats 1000000 in
 theorem range_result_len_buf (lim : Limits) (r1 r2 : Bool) (size n1 n2 : Int) (out : Out) (hk : SizeOk .buf size)
-    (h : opRange lim .buf r1 r2 size n1 n2 = .ok out) :
+    (hn1 : InI64 n1) (hn2 : InI64 n2) (h : opRange lim .buf r1 r2 size n1 n2 = .ok out) :
     SliceOk size out.res ∧ ∀ a ∈ out.acc, a.inBounds .buf size 0 := by
   obtain ⟨h0, hk⟩ := hk
   simp only at hk
   unfold opRange at h
+  dsimp only at h
+  have htR : InI64 (rev_range_buf_to size n2) := by unfold rev_range_buf_to; exact rangeFromEnd_inI64 _ _
+  generalize rev_range_buf_to size n2 = tR at h htR
+  have hfR : InI64 (rev_range_buf_from size n1) := by unfold rev_range_buf_from; exact rangeFromEnd_inI64 _ _
+  generalize rev_range_buf_from size n1 = fR at h hfR
+  unfold InI64 at *
   simp only [guard_range_buf_to_neg, guard_range_buf_from_neg, guard_range_buf_from_neg2, guard_range_buf_empty,
     guard_range_buf_to_hi, inS64, trunc64] at h
   cases r1 <;> cases r2 <;> simp only [Bool.false_eq_true, ↓reduceIte, Bool.not_true, Bool.not_false, Bool.true_and, Bool.false_and] at h <;>
@@ -91,12 +104,12 @@ theorem range_result_len_arr (lim : Limits) (r1 r2 : Bool) (size n1 n2 : Int) (o
 /-- `range_result_len`: for every kind, size and int64 operands, `c[n1..n2]` (all four forms) yields a slice of the
     source - length never negative, never beyond the source - and every access is inside its allocation -/
 theorem range_result_len (lim : Limits) (k : Kind) (r1 r2 : Bool) (size n1 n2 : Int) (out : Out) (hk : SizeOk k size)
-    (h : opRange lim k r1 r2 size n1 n2 = .ok out) :
+    (hn1 : InI64 n1) (hn2 : InI64 n2) (h : opRange lim k r1 r2 size n1 n2 = .ok out) :
     SliceOk size out.res ∧ ∀ a ∈ out.acc, a.inBounds k size 0 := by
   cases k
   · exact range_result_len_arr lim r1 r2 size n1 n2 out hk h
-  · exact range_result_len_str lim r1 r2 size n1 n2 out hk h
-  · exact range_result_len_buf lim r1 r2 size n1 n2 out hk h
+  · exact range_result_len_str lim r1 r2 size n1 n2 out hk hn1 hn2 h
+  · exact range_result_len_buf lim r1 r2 size n1 n2 out hk hn1 hn2 h
 
 theorem erange_result_len_arr (lim : Limits) (r1 : Bool) (size n1 : Int) (out : Out) (hk : SizeOk .arr size)
     (h : opErange lim .arr r1 size n1 = .ok out) :
@@ -109,11 +122,15 @@ theorem erange_result_len_arr (lim : Limits) (r1 : Bool) (size n1 : Int) (out : 
 
 set_option maxHeartbeats 1000000 in
 theorem erange_result_len_str (lim : Limits) (r1 : Bool) (size n1 : Int) (out : Out) (hk : SizeOk .str size)
-    (h : opErange lim .str r1 size n1 = .ok out) :
+    (hn1 : InI64 n1) (h : opErange lim .str r1 size n1 = .ok out) :
     SliceOk size out.res ∧ ∀ a ∈ out.acc, a.inBounds .str size 0 := by
   obtain ⟨h0, hk⟩ := hk
   simp only at hk
   unfold opErange at h
+  dsimp only at h
+  have hfR : InI64 (rev_erange_str_from size n1) := by unfold rev_erange_str_from; exact rangeFromEnd_inI64 _ _
+  generalize rev_erange_str_from size n1 = fR at h hfR
+  unfold InI64 at *
   simp only [guard_erange_str_from_neg, guard_erange_str_from_neg2, guard_erange_str_empty, inS64, trunc64] at h
   cases r1 <;> simp only [Bool.false_eq_true, ↓reduceIte] at h <;>
     (repeat' split at h) <;> cases h <;>
@@ -127,11 +144,15 @@ theorem erange_result_len_str (lim : Limits) (r1 : Bool) (size n1 : Int) (out : 
 
 set_option maxHeartbeats 1000000 in
 theorem erange_result_len_buf (lim : Limits) (r1 : Bool) (size n1 : Int) (out : Out) (hk : SizeOk .buf size)
-    (h : opErange lim .buf r1 size n1 = .ok out) :
+    (hn1 : InI64 n1) (h : opErange lim .buf r1 size n1 = .ok out) :
     SliceOk size out.res ∧ ∀ a ∈ out.acc, a.inBounds .buf size 0 := by
   obtain ⟨h0, hk⟩ := hk
   simp only at hk
   unfold opErange at h
+  dsimp only at h
+  have hfR : InI64 (rev_erange_buf_from size n1) := by unfold rev_erange_buf_from; exact rangeFromEnd_inI64 _ _
+  generalize rev_erange_buf_from size n1 = fR at h hfR
+  unfold InI64 at *
   simp only [guard_erange_buf_from_neg, guard_erange_buf_from_neg2, guard_erange_buf_from_hi, inS64, trunc64] at h
   cases r1 <;> simp only [Bool.false_eq_true, ↓reduceIte] at h <;>
     (repeat' split at h) <;> cases h <;>
@@ -145,11 +166,11 @@ theorem erange_result_len_buf (lim : Limits) (r1 : Bool) (size n1 : Int) (out : 
 
 /-- f_extract_range: `c[n1..]`, `c[<n1..]` -/
 theorem erange_result_len (lim : Limits) (k : Kind) (r1 : Bool) (size n1 : Int) (out : Out) (hk : SizeOk k size)
-    (h : opErange lim k r1 size n1 = .ok out) :
+    (hn1 : InI64 n1) (h : opErange lim k r1 size n1 = .ok out) :
     SliceOk size out.res ∧ ∀ a ∈ out.acc, a.inBounds k size 0 := by
   cases k
   · exact erange_result_len_arr lim r1 size n1 out hk h
-  · exact erange_result_len_str lim r1 size n1 out hk h
-  · exact erange_result_len_buf lim r1 size n1 out hk h
+  · exact erange_result_len_str lim r1 size n1 out hk hn1 h
+  · exact erange_result_len_buf lim r1 size n1 out hk hn1 h
 
 end NV.C01
